@@ -1,6 +1,6 @@
 //! C13 - reconstruction respects the detector's cylindrical and mirror symmetry.
 use crate::engine::*;
-use crate::evgen::{geometric_column, hit_event};
+use crate::evgen::{crowded_column, geometric_column, hit_event};
 use crate::fwd::{self, Truth};
 use crate::model::*;
 use crate::props::mix;
@@ -19,7 +19,7 @@ use uom::si::time::second;
 pub fn def() -> PropDef {
     PropDef {
         id: "C13",
-        rule: "inputs: calibrated signal sets from (a) hit-pattern events with neighbour induction and per-wire waveform lengths that differ inside a block, (b) block events: one contiguous wire block of every length 1..=255 at generated starts (incl. blocks straddling the wire 255/0 seam), two blocks separated by 1..4 empty wires whose waveform lengths differ by up to a factor of three, (c) forward-model tracks, (d) the full ring of 256 wires as a separate, separately counted stream; transformations: all 31 rotations by whole pad columns (wire w -> w + 8k, pad column c -> c + k, applied to the calibrated signals through the event_from_signals hook, so nothing is re-digitised) and the mirror row r -> 575 - r; oracle: rotation - the multiset of avalanches mapped back by -8k wires equals the original multiset with t, z and both amplitudes compared by bits; mirror - same wires, times and amplitudes by bits and z' = -z within 1e-9 m; events in which two avalanches of one (column, time bin) have equal amplitudes are set aside for the mirror (pairing order of equal keys is unspecified); non-trivial = >= 10 avalanches and a rotation that moves a wire block across the seam, or a mirror that moves a hit by >= 10 rows; distinct by case hash",
+        rule: "inputs: calibrated signal sets from (a) hit-pattern events with neighbour induction and per-wire waveform lengths that differ inside a block, (a2) crowded columns: 9-14 pad clusters and 1-3 wire hits of one pad column in one time bin, (b) block events: one contiguous wire block of every length 1..=255 at generated starts (incl. blocks straddling the wire 255/0 seam), two blocks separated by 1..4 empty wires whose waveform lengths differ by up to a factor of three, (c) forward-model tracks, (d) the full ring of 256 wires as a separate, separately counted stream; transformations: all 31 rotations by whole pad columns (wire w -> w + 8k, pad column c -> c + k, applied to the calibrated signals through the event_from_signals hook, so nothing is re-digitised) and the mirror row r -> 575 - r; oracle: rotation - the multiset of avalanches mapped back by -8k wires equals the original multiset with t, z and both amplitudes compared by bits; mirror - same wires, times and amplitudes by bits and z' = -z within 1e-9 m; events in which two avalanches of one (column, time bin) have equal amplitudes are set aside for the mirror (pairing order of equal keys is unspecified); non-trivial = >= 10 avalanches and a rotation that moves a wire block across the seam, or a mirror that moves a hit by >= 10 rows; distinct by case hash",
         assumptions: &[
             "events are built from calibrated signals with alpha_g_physics::verif_hooks::event_from_signals (feature verif-hooks); avalanches() itself is the public API",
             "KNOWN FINDING D4: when all 256 wires carry data the induction matrix is banded instead of circulant and most rotations change the avalanche list; that class is generated separately and reported as KNOWN-FINDING, every other occupancy class stays under the strict check",
@@ -249,6 +249,7 @@ fn partial_case() -> impl Strategy<Value = SymCase> {
     ];
     let source = prop_oneof![
         3 => hit_event(12).prop_map(|mut h| { h.induction = true; Source::Hits(h) }),
+        1 => crowded_column().prop_map(Source::Hits),
         4 => (blocks, any::<u64>(), 80u16..300).prop_map(|(blocks, seed, bins)| Source::Blocks { blocks, seed, bins }),
         1 => fwd::truth().prop_map(Source::Forward),
     ];
